@@ -16,17 +16,19 @@ import (
 // cfsCtl drives one collection filesystem with gated Keep writes and records the event history
 // in the vocabulary of coq/model/CFS_run.v.
 type cfsCtl struct {
-	t       *testing.T
-	r       *vRand
-	kc      *cfsKeep
-	se      *cfsSess
-	base    int // goroutines when nothing is in flight
-	events  []string
-	desc    []string
-	initTxt string
-	initTab [][2]string // (hex data, locator) of the blocks of the initial manifest
-	dirty   bool        // a save has failed: only read-only operations until the next successful save
-	dead    bool        // an operation did not return: the history ends
+	t              *testing.T
+	r              *vRand
+	kc             *cfsKeep
+	se             *cfsSess
+	base           int // goroutines when nothing is in flight
+	events         []string
+	desc           []string
+	initTxt        string
+	initTab        [][2]string // (hex data, locator) of the blocks of the initial manifest
+	dirty          bool        // a save has failed: only read-only operations until the next successful save
+	dead           bool        // an operation did not return: the history ends
+	releaseBlocked bool        // runOp releases parked writes as soon as the call is seen waiting
+	forceInflight  bool        // the next save starts while writes are in flight (if any)
 }
 
 // cfsDeadCases counts histories that ended in a deadlock; after a few the stage stops generating
@@ -111,7 +113,7 @@ func (c *cfsCtl) runOp(f func()) {
 			c.settle()
 			for _, d := range deferred {
 				c.events = append(c.events, "ECompleteData "+cfsBytes(d))
-				c.desc = append(c.desc, fmt.Sprintf("complete write(s) of %d bytes (released while the call above was waiting for a throttle slot)", len(d)))
+				c.desc = append(c.desc, fmt.Sprintf("complete write(s) of %d bytes (released while the call was parked waiting for a throttle slot / for writes in flight)", len(d)))
 				c.se.tag("complete-throttle")
 			}
 			return
@@ -119,7 +121,11 @@ func (c *cfsCtl) runOp(f func()) {
 		}
 		n := runtime.NumGoroutine() - c.base - 1
 		w := c.kc.nwaiting()
-		if w >= concurrentWriters && n == lastN && w == lastW {
+		need := concurrentWriters
+		if c.releaseBlocked {
+			need = 1 // a save waits for every write in flight: let them return one by one while it is parked
+		}
+		if w >= need && n == lastN && w == lastW {
 			stable++
 			if stable >= 10 {
 				c.kc.mtx.Lock()
@@ -229,7 +235,16 @@ func (c *cfsCtl) marshal() (string, bool) {
 	if c.dead {
 		return "", false
 	}
-	c.completeAll()
+	inflight := c.kc.nwaiting() > 0 && (c.forceInflight || c.r.Chance(1, 2))
+	if inflight {
+		// the save starts while background writes are still parked in Keep; they are released one by
+		// one once the call is seen waiting (events: the completions, then the save)
+		c.releaseBlocked = true
+		defer func() { c.releaseBlocked = false }()
+		c.se.tag("save-with-writes-in-flight")
+	} else {
+		c.completeAll()
+	}
 	if c.kc.mode > 1 {
 		c.setMode(c.r.Intn(2))
 	}
